@@ -1071,6 +1071,12 @@ func genConfig(t *rapid.T, fk kind, ftyp string) ([]pat, []bool) {
 		return m
 	}
 	addMask(fk, ftyp, drawMask("focusBit", rapid.Bool().Draw(t, "focusDense")))
+	if fk == kMsg && ftyp == "normal" && rapid.IntRange(0, 3).Draw(t, "emptyTypePatterns") == 0 {
+		// message patterns registered with the empty type: a pattern of its own
+		// (no message has that type: a missing type attribute means normal), which
+		// neither collides with the normal patterns nor is ever chosen
+		addMask(kMsg, "", drawMask("emptyTypeBit", true))
+	}
 	nd := rapid.IntRange(0, 3).Draw(t, "distractors")
 	seen := map[string]bool{fmt.Sprint(fk, ftyp): true}
 	for i := 0; i < nd; i++ {
